@@ -46,13 +46,15 @@ def cls_li_offset(case):
 
 def cls_li_label_arith(case):
     """KF-A (li): the failing line is an `li` whose operand combines a label with an arithmetic
-    operator, so the early width decision can go stale"""
+    operator or with the base of %position, so the early width decision can go stale"""
     t = _failing_line(case)
     if not t.lower().startswith('li '):
         return False
     labels = _label_names(case)
     operand = t.split(None, 2)[2] if len(t.split(None, 2)) > 2 else ''
     has_label = any(tok in labels for tok in re.split(r'[^A-Za-z0-9_]+', operand))
+    if '%position' in operand and has_label:
+        return True                       # %position(L, base) is the label arithmetic base + L
     return has_label and any(op in operand for op in '+-*/&|^~<>') and '%offset' not in operand.replace('-', '')
 
 
